@@ -186,6 +186,91 @@ func genC15(seed int64, tier string) []caseOut {
 			}
 		}
 	}
+	// several JWS created from one protected-header map the caller keeps updating (a per-message
+	// key id), serialised only afterwards: each is the JWS that was signed
+	for _, kind := range keyKinds {
+		k := genKey(rand.New(rand.NewSource(int64(1700+len(kind)))), kind)
+		sg := k.signer()
+		hdr := jws.Headers{}
+		var made []*jwsutil.JSONWebSignature
+		var payloads []string
+		for m := 0; m < 3; m++ {
+			hdr["kid"] = fmt.Sprintf("message-%d", m)
+			p := fmt.Sprintf(`{"message":%d}`, m)
+			j, err := jwsutil.NewJWS(hdr, nil, []byte(p), sg)
+			if err != nil {
+				j = nil
+			}
+			made = append(made, j)
+			payloads = append(payloads, p)
+		}
+		for m, j := range made {
+			c := ""
+			if j != nil {
+				c, _ = j.SerializeCompact(false)
+			}
+			add(fmt.Sprintf("%s:created-from-a-reused-header-map-%d", kind, m), sg.jwk, c, true, payloads[m])
+		}
+	}
+	// signature components at or above the group order: for a fixed message and nonce, s = 5 and the
+	// private key solved from the signing equation; (r, s) verifies, (r, s + N) - the same residue,
+	// other octets - must not (honest signatures never have a component that small)
+	for _, kind := range keyKinds {
+		if kind == "Ed25519" {
+			continue
+		}
+		curve, w, hf, alg := curveOf(kind)
+		N := curve.Params().N
+		fr := rand.New(rand.NewSource(int64(1500 + len(kind))))
+		payload := []byte(`{"crafted":"small s","curve":"` + kind + `"}`)
+		signingInput := b64(jcs(map[string]interface{}{"alg": alg})) + "." + b64(payload)
+		hh := hf()
+		hh.Write([]byte(signingInput))
+		dig := hh.Sum(nil)
+		z := new(big.Int).SetBytes(dig)
+		if excess := len(dig)*8 - N.BitLen(); excess > 0 {
+			z.Rsh(z, uint(excess))
+		}
+		for _, sSmall := range []int64{5, 1} {
+			var k *keyPair
+			var rr *big.Int
+			for k == nil {
+				nb := make([]byte, (N.BitLen()+7)/8)
+				rngReader{fr}.Read(nb)
+				kn := new(big.Int).Mod(new(big.Int).SetBytes(nb), N)
+				if kn.Sign() == 0 {
+					continue
+				}
+				rx, _ := curve.ScalarBaseMult(kn.Bytes())
+				rr = new(big.Int).Mod(rx, N)
+				if rr.Sign() == 0 {
+					continue
+				}
+				// d = (s*k - z) / r mod N
+				d := new(big.Int).Mul(big.NewInt(sSmall), kn)
+				d.Sub(d, z)
+				d.Mul(d, new(big.Int).ModInverse(rr, N))
+				d.Mod(d, N)
+				if d.Sign() == 0 {
+					continue
+				}
+				qx, qy := curve.ScalarBaseMult(d.Bytes())
+				k = &keyPair{kind: kind, alg: alg, ec: &ecdsa.PrivateKey{PublicKey: ecdsa.PublicKey{Curve: curve, X: qx, Y: qy}, D: d}}
+			}
+			j := toJWK(k.jwk())
+			mk := func(r2, s2 *big.Int) string {
+				return signingInput + "." + b64(append(fixedWidth(r2, w), fixedWidth(s2, w)...))
+			}
+			sv := big.NewInt(sSmall)
+			add(fmt.Sprintf("%s:crafted-s-%d", kind, sSmall), j, mk(rr, sv), true, string(payload))
+			if sN := new(big.Int).Add(sv, N); sN.BitLen() <= 8*w {
+				add(fmt.Sprintf("%s:crafted-s-%d-plus-group-order", kind, sSmall), j, mk(rr, sN), false, string(payload))
+			}
+			if rN := new(big.Int).Add(rr, N); rN.BitLen() <= 8*w {
+				add(fmt.Sprintf("%s:crafted-r-plus-group-order", kind), j, mk(rN, sv), false, string(payload))
+			}
+		}
+	}
 	for round := 0; round < per; round++ {
 		keys := map[string]*keyPair{}
 		for _, kind := range keyKinds {
@@ -366,6 +451,38 @@ func genC16(seed int64, tier string) []caseOut {
 	}
 	r := rand.New(rand.NewSource(seed))
 	var out []caseOut
+	// one JWK value a caller reads every key of the run into, whatever its curve: each read gives the
+	// key that was read, labelled as such, and writes back out as the same JWK
+	var reader jwsutil.JWK
+	readBack := func(jb []byte, wantKty, wantCrv string) (key interface{}, ok bool) {
+		defer func() {
+			if recover() != nil {
+				key, ok = nil, false
+			}
+		}()
+		if reader.UnmarshalJSON(jb) != nil {
+			return nil, false
+		}
+		mb, err := reader.MarshalJSON()
+		if err != nil || reader.Kty != wantKty || reader.Crv != wantCrv {
+			return nil, false
+		}
+		var a, b map[string]interface{}
+		if json.Unmarshal(jb, &a) != nil || json.Unmarshal(mb, &b) != nil {
+			return nil, false
+		}
+		for _, m := range []map[string]interface{}{a, b} { // members left empty are members left out
+			for k, v := range m {
+				if v == "" {
+					delete(m, k)
+				}
+			}
+		}
+		if deepSnapshot(a) != deepSnapshot(b) {
+			return nil, false
+		}
+		return reader.Key, true
+	}
 	addEC := func(label, kind string, x, y *big.Int) {
 		curve, w, _, _ := curveOf(kind)
 		pk := &ecdsa.PublicKey{Curve: curve, X: x, Y: y}
@@ -377,9 +494,8 @@ func genC16(seed int64, tier string) []caseOut {
 			implJWK = "(Some " + coqJWK(j) + ")"
 			rec["impl_jwk"] = j
 			jb, _ := json.Marshal(j)
-			var back jwsutil.JWK
-			if back.UnmarshalJSON(jb) == nil {
-				if bpk, ok := back.Key.(*ecdsa.PublicKey); ok && bpk.X.Cmp(x) == 0 && bpk.Y.Cmp(y) == 0 {
+			if key, ok := readBack(jb, "EC", kind); ok {
+				if bpk, ok := key.(*ecdsa.PublicKey); ok && bpk.X.Cmp(x) == 0 && bpk.Y.Cmp(y) == 0 {
 					backOK = true
 				}
 			}
@@ -521,6 +637,11 @@ func genC16(seed int64, tier string) []caseOut {
 				}
 			}
 		}
+		// x = 0: a coordinate of zero bytes only (the NIST curves have such points)
+		if y0, ok := pointWithX(kind, big.NewInt(0)); ok && curve.IsOnCurve(big.NewInt(0), y0) {
+			addEC(kind+":zero-x", kind, big.NewInt(0), y0)
+			addEC(kind+":zero-x-other-root", kind, big.NewInt(0), new(big.Int).Sub(fieldPrime, y0))
+		}
 		// small x: many leading zero bytes in X; and scan for Y with leading zero byte(s)
 		foundY := 0
 		for xi := int64(1); xi < int64(scan) && foundY < 3; xi++ {
@@ -586,6 +707,13 @@ func genC16(seed int64, tier string) []caseOut {
 		backOK := false
 		if err == nil {
 			implJWK = "(Some " + coqJWK(j) + ")"
+			// through the run's shared reader as well (right after a secp256k1 key, see below)
+			jb, _ := json.Marshal(j)
+			rk, rok := readBack(jb, "OKP", "Ed25519")
+			if epk, ok := rk.(ed25519.PublicKey); !rok || !ok || string(epk) != string(pub) {
+				err = fmt.Errorf("read back through a reused JWK value failed")
+				implJWK = "None"
+			}
 			back, e2 := jwsutil.GetED25519PublicKey(j)
 			backOK = e2 == nil && string(back) == string(pub)
 		}
